@@ -146,7 +146,7 @@ pub fn describe(p: &Prog) -> Described {
 
 fn mk_payload(p: &Prog) -> IppPayload {
     // from a fragmented source
-    let (src, _c) = Scripted::new(p.payload.clone(), Schedule::uniform(p.payload.len(), 7).with_stalls(0x77), None);
+    let (src, _c) = Scripted::new(p.payload.clone(), Schedule::uniform(p.payload.len(), 7), None);
     IppPayload::new(src)
 }
 
